@@ -94,6 +94,16 @@ def gen_file(ctx):
             cc[a] = b
             cc_st.append({"k": "ChargeConj", "a": a, "b": b})
             hits.append("two-aliases-of-a-self-conjugate-particle")
+    unpaired = None
+    if r.random() < 0.2 and selfc:
+        # an alias of a self-conjugate particle that no ChargeConj statement mentions: as a daughter it has no known conjugate (marked, not guessed)
+        n = r.choice(selfc)
+        a = f"Un{n}"
+        if a not in aliases and L.label_ok(a, g.models):
+            aliases[a] = n
+            alias_st.append({"k": "Alias", "a": a, "b": n})
+            unpaired = a
+            hits.append("unpaired-alias-of-a-self-conjugate-particle")
     conj = L.file_conj(cc)
 
     def daughters():
@@ -103,6 +113,8 @@ def gen_file(ctx):
             x = r.random()
             if onesided and x < 0.25:
                 out.append(r.choice(onesided))
+            elif unpaired and x < 0.35:
+                out.append(unpaired)
             elif x < 0.5:
                 out.append(r.choice(g.real))
             elif x < 0.7 and aliases:
@@ -176,6 +188,15 @@ def gen_file(ctx):
             hits.append("decay+cdecay-one-name")
         elif len(ks) >= 2:
             hits.append("decay+cdecay>=2-names")
+    # an aliased (paired) mother whose lines contain self-conjugate particles only: its conjugate still gets the table, under its own name
+    paired = [(a, b) for a, b in cc.items() if a in aliases and b in aliases and a != b and a not in used and b not in used]
+    if paired and selfc and r.random() < 0.3:
+        a, b = r.choice(paired)
+        used |= {a, b}
+        blocks.append({"k": "Decay", "m": a, "lines": [{"bf": g.bflit(), "fs": r.sample(selfc, min(len(selfc), r.choice([1, 2, 3]))), "photos": False, "model": "PHSP", "params": []}
+                                                       for _ in range(r.choice([1, 2, 3]))]})
+        cdecays.append({"k": "CDecay", "name": b})
+        hits.append("aliased-mother-with-self-conjugate-daughters-only")
     # Decay X with *no lines* (X declared stable) together with CDecay X, the conjugate having a table of its own: X keeps its empty table
     if r.random() < 0.15:
         for n, c in r.sample(pairs, 3):
